@@ -976,7 +976,16 @@ def c16(tier, replay_file=None):
             write_ndjson(cpath, cases)
         log("[tlc] DevGen: %d cases over %d entry kinds, %.1fs" % (len(cases), nkinds, time.time() - t0))
         rpath = os.path.join(wd, "results.ndjson")
-        run_tmv(exe, ["devlist", cpath], stdout_path=rpath)
+        # the placeholder "(R)" of DevList.tla becomes the real character U+00AE for the code under test, and the placeholder again in what it returns
+        cpath_real = os.path.join(wd, "cases_real.ndjson")
+        with open(cpath, encoding="utf-8") as f, open(cpath_real, "w", encoding="utf-8") as g:
+            for l in f:
+                g.write(l.replace("(R)", "\u00ae"))
+        rpath_real = os.path.join(wd, "results_real.ndjson")
+        run_tmv(exe, ["devlist", cpath_real], stdout_path=rpath_real)
+        with open(rpath_real, encoding="utf-8") as f, open(rpath, "w", encoding="utf-8") as g:
+            for l in f:
+                g.write(l.replace("\u00ae", "(R)").replace("\\u00ae", "(R)"))
         lines = [l for l in open(rpath) if l.strip()]
         spath = os.path.join(wd, "singles.ndjson")
         with open(spath, "w") as f:
@@ -1114,7 +1123,9 @@ def c16_e2e(res, wd, cases, replay_file=None):
         d = os.path.join(wd, "e2e", str(c["id"]))
         shutil.rmtree(d, ignore_errors=True)
         os.makedirs(os.path.join(d, "sys"))
-        open(os.path.join(d, "devices"), "w").write(c["text"])
+        c0 = c          # (what the judge is told: the placeholder form)
+        c = dict(c, text=c["text"].replace("(R)", "\u00ae"), excludes=[p_.replace("(R)", "\u00ae") for p_ in c["excludes"]])
+        open(os.path.join(d, "devices"), "w", encoding="utf-8").write(c["text"])
         # one event node per distinct sysfs path in the text
         sysfs = []
         for line in c["text"].splitlines():
@@ -1164,7 +1175,7 @@ def c16_e2e(res, wd, cases, replay_file=None):
             skipped2 = set(re.findall(r"^Skipping (\S+) ", b2.stderr, re.M))
             sel_alt = [n for n, a2 in zip(nodes, alt) if a2 not in skipped2]
             n_alt = re.search(r"Remapping (\d+) devices", b2.stderr)
-        rows.append({"id": c["id"], "entries": c["entries"], "excludes": c["excludes"], "nodes": [{"sysfs": sp, "node": n} for sp, n in zip(sysfs, nodes)],
+        rows.append({"id": c["id"], "entries": c["entries"], "excludes": c0["excludes"], "nodes": [{"sysfs": sp, "node": n} for sp, n in zip(sysfs, nodes)],
                      "sel_all": sel_all, "n_all": int(n_all.group(1)) if n_all else -1,
                      "sel_dev": sel_dev, "n_dev": int(n_dev.group(1)) if n_dev else -1, "panicked": panicked,
                      "sel_alt": sel_alt if b is not None else [], "n_alt": (int(n_alt.group(1)) if n_alt else -1) if b is not None else -1, "listed": listed})
